@@ -345,7 +345,10 @@ def reshape(x, shape, merge_chunks=True, limit=None):
 
     name = "reshape-" + tokenize(x, shape)
 
-    if x.npartitions == 1:
+    if x.npartitions == 1 or x.size == 0:
+        # One block, or no elements at all: an array without elements can be
+        # reshaped from any one of its (empty) blocks, and the chunk arithmetic
+        # below cannot handle zero-length axes
         key = next(flatten(x.__dask_keys__()))
         new_key = (name,) + (0,) * len(shape)
         dsk = {new_key: Task(new_key, M.reshape, TaskRef(key), shape)}
